@@ -14,6 +14,7 @@ CONSTANTS
   Senses <- MC_Senses
   AllNames <- MC_AllNames
   Want <- MC_Want
+  SingValues <- MC_SingValues
   FinalEn <- MC_FinalEn
   Stages <- MC_Stages
   PRPredict <- MC_NoPR
